@@ -35,6 +35,9 @@ SlicePanics(s, rg) ==
   \/ ROverflow(rg) \/ RStart(rg) > REnd(rg, len) \/ REnd(rg, len) > len
   \/ ~IsBoundary(s, RStart(rg)) \/ ~IsBoundary(s, REnd(rg, len))
 
+Upper(c) == IF c >= 97 /\ c <= 122 THEN c - 32 ELSE c
+MinI(a, b) == IF a < b THEN a ELSE b
+
 R(text) == [panics |-> FALSE, text |-> text, ret |-> <<>>, other |-> <<>>, hasOther |-> FALSE, gone |-> FALSE]
 P(text) == [R(text) EXCEPT !.panics = TRUE]
 
@@ -42,8 +45,16 @@ P(text) == [R(text) EXCEPT !.panics = TRUE]
 Sem(e, t) ==
   LET len == ByteLen(t) IN
   CASE e.op \in {"new"} -> R(<<>>)
-    [] e.op = "from_str" -> R(e.s)
-    [] e.op \in {"push", "push_str", "extend", "write_fmt"} -> R(t \o e.s)
+    [] e.op \in {"from_str", "from_iter", "from_utf8_unchecked"} -> R(e.s)
+    [] e.op \in {"push", "push_str", "extend", "write_fmt", "extend_strs", "add", "add_assign", "as_mut_vec_push"} -> R(t \o e.s)
+    \* make_ascii_uppercase through a mutable view (as_mut_str, DerefMut, BorrowMut: the whole text;
+    \* IndexMut<range>: the slice, with slicing's panic conditions)
+    [] e.op = "ascii_upper" ->
+         IF e.a # 3 THEN R([i \in 1..Len(t) |-> Upper(t[i])])
+         ELSE IF SlicePanics(t, e.rg) THEN P(t)
+         ELSE LET ks == CharsBefore(t, RStart(e.rg))
+                  ke == CharsBefore(t, REnd(e.rg, len))
+              IN R([i \in 1..Len(t) |-> IF i > ks /\ i <= ke THEN Upper(t[i]) ELSE t[i]])
     [] e.op = "pop" -> IF t = <<>> THEN R(t) ELSE [R(Sub(t, 1, Len(t) - 1)) EXCEPT !.ret = <<t[Len(t)]>>]
     [] e.op \in {"insert", "insert_str"} ->
          IF ~IsBoundary(t, U(e.a)) THEN P(t)
@@ -63,10 +74,15 @@ Sem(e, t) ==
          ELSE LET ks == CharsBefore(t, RStart(e.rg))
                   ke == CharsBefore(t, REnd(e.rg, len))
                   removed == Sub(t, ks + 1, ke)
+                  \* the iterator is double-ended: e.a chars from the front, then e.b from the back
+                  front == Take(removed, e.a)
+                  rest == Sub(removed, Len(front) + 1, Len(removed))
+                  nb == IF e.b < 0 THEN 0 ELSE MinI(e.b, Len(rest))
+                  got == front \o [i \in 1..nb |-> rest[Len(rest) + 1 - i]]
               IN IF e.flag = 1
                  THEN \* a leaked Drain removes nothing
-                      [R(t) EXCEPT !.ret = Take(removed, e.a)]
-                 ELSE [R(Sub(t, 1, ks) \o Sub(t, ke + 1, Len(t))) EXCEPT !.ret = Take(removed, e.a)]
+                      [R(t) EXCEPT !.ret = got]
+                 ELSE [R(Sub(t, 1, ks) \o Sub(t, ke + 1, Len(t))) EXCEPT !.ret = got]
     [] e.op = "replace_range" ->
          IF SlicePanics(t, e.rg) THEN P(t)
          ELSE LET ks == CharsBefore(t, RStart(e.rg))
